@@ -140,6 +140,34 @@ def blank_family() -> list[list[tuple]]:
     return progs
 
 
+def loop_family() -> list[list[tuple]]:
+    """Sequences of loops over the same (variable, iterable): a first loop with every combination
+    of limit / offset / offset: continue / reversed, then loops with offset: continue (complete):
+    every loop records where it stopped, also a plain or reversed one.  And cycle groups that
+    share a name, an item count or the items (complete for two-item / three-item groups)."""
+    it = ("range", ("lit", 1), ("lit", 3))
+    body, els = [("output", ("path", "x", []))], [("content", "none")]
+    progs: list[list[tuple]] = []
+    for lim in (None, ("lit", 1), ("lit", 2)):
+        for off in (None, ("lit", 1), "continue"):
+            for rv in (False, True):
+                for lim2 in (None, ("lit", 1)):
+                    for rv2 in (False, True):
+                        progs.append([("for", "x", it, lim, off, rv, body, els), ("content", "|"),
+                                      ("for", "x", it, lim2, "continue", rv2, body, els), ("content", "|"),
+                                      ("for", "x", it, None, "continue", False, body, els)])
+    A, X = [("lit", "a"), ("lit", "b")], [("lit", "x"), ("lit", "y")]
+    A3 = A + [("lit", "c")]
+    two = ("range", ("lit", 1), ("lit", 2))
+    for g1, i1, g2, i2 in [("g", A, "g", X), ("g", A, "h", A), (None, A, None, X), ("g", A, "g", A3), ("g", A, None, A), ("g", A, "g", A),
+                           (None, A, None, A), ("g", X, "g", A), ("g", A3, "g", [("lit", "x"), ("lit", "y"), ("lit", "z")])]:
+        c1, c2 = ("cycle", g1, i1), ("cycle", g2, i2)
+        progs.append([c1, c2, c1, c2, c1])
+        progs.append([("for", "i", two, None, None, False, [c1, ("for", "j", two, None, None, False, [c2], None), ("content", " ")], None)])
+        progs.append([("for", "i", two, None, None, False, [c1, c2, ("content", " ")], None), c2, c1])
+    return progs
+
+
 def ternary_family() -> list[list[tuple]]:
     """Inline conditions `a if c [else b] [|| tail filters]` in every position that takes a
     filtered expression x condition true / false / undefined / a truthy variable x with and
@@ -204,7 +232,7 @@ def main(chk: C.Check, build: C.Build) -> None:
     pyexc: list[dict[str, Any]] = []
     # the complete blank-flag family, with suppression on and off, and the complete family of
     # inline conditions with tail filters
-    family = [(p, sup) for p in blank_family() for sup in (True, False)] + [(p, True) for p in ternary_family()]
+    family = [(p, sup) for p in blank_family() for sup in (True, False)] + [(p, True) for p in ternary_family()] + [(p, True) for p in loop_family()]
     for pi in range(nprog + len(family)):
         if pi >= nprog:
             prog = clf.canon({"main": family[pi - nprog][0], "loader": {}})
